@@ -2,6 +2,7 @@ package spec
 
 import (
 	"go/ast"
+	"strings"
 
 	"lndlint/internal/an"
 )
@@ -47,12 +48,29 @@ func codecC02(r *an.Run) {
 			CompareTypes: true, MinEvents: 8},
 	}
 	r.Obl("channel-codec-pairs", "CODEC",
-		"for each encoder/decoder pair of the channel state: the ordered sequence of (field, static element type) written to the stream equals the sequence read; the sets of struct fields used by the two sides agree; for the listed types every field is handled",
+		"for each encoder/decoder pair of the channel state: the ordered sequence of (field, static element type) written to the stream equals the sequence read; the sets of struct fields used by the two sides agree; for the listed types every field is handled; an element written under a condition on the value is read under the same condition (a trailing element written iff set is read iff bytes remain); putChanCommitment and fetchChanCommitment derive the slot sub-key from their flag identically and the local / remote commitment use the true / false slot; the TLV record structs are filled from and re-attached to the same fields",
 		"a field dropped, reordered or re-typed on one side makes the reloaded state differ from the stored one (the serialisation defect class named in C02)", 16,
 		func(o *an.Obl) {
 			for _, cp := range pairs {
 				p.CheckPair(o, cp)
 			}
+			// optional stream elements are read under the condition they were
+			// written under
+			n := 0
+			for _, cp := range pairs {
+				n += c02StreamConditions(o, p, cp.Name, cp.Enc, cp.Dec, cp.TypePkg+"."+cp.TypeName)
+			}
+			if n < 30 {
+				o.FailAt("channel-codec-pairs#conditions", "", "only %d stream fields could be compared for their write/read conditions, expected at least 30", n)
+			}
+			// the two commitment slots
+			c02SlotKeys(o, p)
+			// the TLV record structs and the structs they extend: record r is
+			// filled from field f and f is re-attached from record r
+			c02RoundTrip(o, p, "OpenChannel<->openChannelTlvData", []string{"channeldb.extractOpenChannelTlvData"}, []string{"channeldb.amendOpenChannelTlvData"},
+				"channeldb.openChannelTlvData", "chanstate.OpenChannel", chanStatusAlias, 16)
+			c02RoundTrip(o, p, "ChannelCommitment<->commitTlvData", []string{"channeldb.extractCommitTlvData"}, []string{"channeldb.amendCommitTlvData"},
+				"channeldb.commitTlvData", "chanstate.ChannelCommitment", nil, 2)
 		})
 	r.Obl("channel-tlv-structs", "CODEC",
 		"the TLV record structs appended to the channel info and to each commitment have pairwise distinct type numbers, the encoder and decoder hand exactly the declared records to the stream, and a parsed optional record is re-attached to the field with the same type number as the key that guards it",
@@ -66,13 +84,14 @@ func codecC02(r *an.Run) {
 				Enc: []string{"channeldb.extractCommitTlvData"}, Dec: []string{"channeldb.amendCommitTlvData"}, AllFields: true, MentionsOnly: true})
 		})
 	r.Obl("element-switches", "CODEC",
-		"channeldb.WriteElement and ReadElement: the reader has a case *T exactly for every writer case T, and per type the set of fixed-size operand widths handed to encoding/binary agrees",
+		"channeldb.WriteElement and ReadElement: the reader has a case *T exactly for every writer case T, and per type the set of fixed-size operand widths handed to encoding/binary agrees; every encoding/binary call of the two switches uses channeldb.byteOrder",
 		"every channel codec pair funnels through these two switches; a case present or widened on one side only breaks all of them at once", 25,
 		func(o *an.Obl) {
 			p.CheckElementSwitches(o, "channeldb.WriteElement", "channeldb.ReadElement", nil, nil, nil)
+			c02ByteOrder(o, p)
 		})
 	r.Obl("disk-mem-converters", "CODEC",
-		"commitment.toDiskCommit and diskCommitToMemCommit/diskHtlcToPayDesc agree on the fields of ChannelCommitment, HTLC, commitment and paymentDescriptor they carry across a restart; the forwarding package writer and loader agree on FwdPkg",
+		"commitment.toDiskCommit and diskCommitToMemCommit/diskHtlcToPayDesc agree on the fields of ChannelCommitment, HTLC, commitment and paymentDescriptor they carry across a restart, and the field pairings are inverse (what toDiskCommit stores from memory field m into disk field d is restored from d into m); toDiskCommit stores the same fields for offered and received HTLCs with Incoming=false / true, extractPayDescs partitions on that flag and diskCommitToMemCommit puts the partitions back; the forwarding package writer and loader agree on FwdPkg and load every part from the bucket or key it was written under",
 		"a field set when writing but not restored (or vice versa) is lost at the first restart", 10,
 		func(o *an.Obl) {
 			p.CheckPair(o, an.CodecPair{Name: "ChannelCommitment/mem<->disk", TypePkg: "chanstate", TypeName: "ChannelCommitment",
@@ -96,10 +115,17 @@ func codecC02(r *an.Run) {
 				Enc: []string{"channeldb.ChannelPackager.AddFwdPkg"}, Dec: []string{"channeldb.loadFwdPkg"},
 				MentionsOnly: true,
 				DecOnly:      map[string]string{"State": "derived from the filters", "FwdFilter": "written separately by SetFwdFilter"}})
+			// which field feeds which, in both directions
+			c02RoundTrip(o, p, "ChannelCommitment<->commitment", []string{"lnwallet.commitment.toDiskCommit"}, []string{"lnwallet.LightningChannel.diskCommitToMemCommit"},
+				"chanstate.ChannelCommitment", "lnwallet.commitment", nil, 20)
+			c02RoundTrip(o, p, "HTLC<->paymentDescriptor", []string{"lnwallet.commitment.toDiskCommit"}, []string{"lnwallet.LightningChannel.diskHtlcToPayDesc"},
+				"chanstate.HTLC", "lnwallet.paymentDescriptor", nil, 16)
+			c02HtlcDirection(o, p)
+			c02FwdPkgKeys(o, p)
 		})
 
 	r.Obl("stored-keys-are-restored", "CODEC",
-		"every channel-bucket key written by the three state transitions (and the forwarding package keys) is read by a function reachable from the restore entry points, and every key read there has a writer",
+		"every channel-bucket key written by the three state transitions (and the forwarding package keys) is read by a function reachable from the restore entry points, and every key read there has a writer; RemoteCommitChainTip, UnsignedAckedUpdates and RemoteUnsignedLocalUpdates return the value decoded from the bytes under their key",
 		"a value stored under a key nobody reads on reload is state silently dropped by a restart", 14,
 		func(o *an.Obl) {
 			puts := append(p.KeyUses("channeldb", "Put"), p.KeyUses("channeldb", "CreateBucketIfNotExists")...)
@@ -140,10 +166,11 @@ func codecC02(r *an.Run) {
 					o.FailAt("key-"+k+"#not-restored", "", "key %s is written by %v but no Get/NestedReadBucket of it is reachable from the restore entry points %v (readers found: %v)", k, uniq(w), roots, uniq(rd))
 				}
 			}
+			c02ReadersReturnDecoded(o, p)
 		})
 
 	r.Obl("broadcast-reads-synced-commitment", "WHO",
-		"getSignedCommitTx takes the transaction and signature to broadcast from channelState.LocalCommitment (the copy synchronised with disk by memory-after-disk) and never from the in-memory commitment chain",
+		"getSignedCommitTx takes the transaction and signature to broadcast from channelState.LocalCommitment (the copy synchronised with disk by memory-after-disk) and never from the in-memory commitment chain: the CommitTx and CommitSig of the one SignedCommitTxInputs literal handed to GetSignedCommitTx are LocalCommitment's, nothing overwrites a CommitTx/CommitSig before signing, and no channel method called from there reads commitChains",
 		"the chain tip can be ahead of disk; broadcasting it could publish a state whose predecessor was not durably revoked/recorded", 2,
 		func(o *an.Obl) {
 			f := p.Func("lnwallet.LightningChannel.getSignedCommitTx")
@@ -168,6 +195,70 @@ func codecC02(r *an.Run) {
 			if nLocal == 0 {
 				o.FailAt(f.ID+"#no-LocalCommitment", f.Where(f.Body.Pos()), "getSignedCommitTx no longer reads channelState.LocalCommitment")
 			}
+			// the transaction and signature handed to GetSignedCommitTx are the
+			// fields of that copy, and nothing overwrites them on the way
+			sign := f.Calls(an.CalleeIs("lnwallet.GetSignedCommitTx"), false)
+			if needExactly(o, f, "GetSignedCommitTx", sign, 1) {
+				var lit *ast.CompositeLit
+				ast.Inspect(f.Body, func(n ast.Node) bool {
+					if cl, ok := n.(*ast.CompositeLit); ok && an.TypeID(f.Info().TypeOf(cl)) == "lnwallet.SignedCommitTxInputs" {
+						lit = cl
+					}
+					return true
+				})
+				arg := sign[0].Node.(*ast.CallExpr).Args[0]
+				if lit == nil || len(c02XferDefs(f, arg)) != 1 || ast.Unparen(c02XferDefs(f, arg)[0]) != ast.Expr(lit) {
+					o.FailAt(f.ID+"#signed-inputs", sign[0].Where(), "GetSignedCommitTx is not given the one SignedCommitTxInputs literal of getSignedCommitTx")
+				} else {
+					got := map[string]string{}
+					for _, el := range lit.Elts {
+						if kv, ok := el.(*ast.KeyValueExpr); ok {
+							got[an.Text(kv.Key)] = f.Canon(kv.Value)
+						}
+					}
+					for _, k := range []string{"CommitTx", "CommitSig"} {
+						o.Site("SignedCommitTxInputs.%s = %s", k, got[k])
+						if got[k] != "$recv.channelState.LocalCommitment."+k {
+							o.FailAt(f.ID+"#signed-"+k, f.Where(lit.Pos()), "the %s handed to GetSignedCommitTx is %s, expected channelState.LocalCommitment.%s", k, got[k], k)
+						}
+					}
+				}
+				for _, k := range []string{"CommitTx", "CommitSig"} {
+					for _, s := range f.Assigns(c02StoredInto(an.FieldPath(nil, k)), true) {
+						o.FailAt(f.ID+"#overwrites-"+k, s.Where(), "getSignedCommitTx overwrites a %s before signing: %s", k, s.String())
+					}
+				}
+			}
+			// ... also not through a helper method of the channel
+			seen := map[string]bool{f.ID: true}
+			work := []string{f.ID}
+			for len(work) > 0 {
+				cur := p.FuncOpt(work[len(work)-1])
+				work = work[:len(work)-1]
+				if cur == nil {
+					continue
+				}
+				for id := range cur.StaticCallees() {
+					if seen[id] || !(strings.HasPrefix(id, lw+"LightningChannel.") || strings.HasPrefix(id, lw+"commitmentChain.")) {
+						continue
+					}
+					seen[id] = true
+					work = append(work, id)
+					if strings.HasPrefix(id, lw+"commitmentChain.") {
+						o.FailAt(f.ID+"#calls-"+id, f.Where(f.Body.Pos()), "getSignedCommitTx reaches %s (through %s): the in-memory commitment chain must not feed the broadcast", id, cur.ID)
+						continue
+					}
+					if h := p.FuncOpt(id); h != nil {
+						ast.Inspect(h.Body, func(n ast.Node) bool {
+							if sel, ok := n.(*ast.SelectorExpr); ok && an.Field("lnwallet.LightningChannel", "commitChains", nil)(h, sel) {
+								o.FailAt(f.ID+"#reads-commitChains-via-"+id, h.Where(sel.Pos()), "getSignedCommitTx calls %s, which reads the in-memory commitment chain: %s", id, an.Text(sel))
+							}
+							return true
+						})
+					}
+				}
+			}
+			o.Site("getSignedCommitTx reaches the channel methods %v", keys(seen))
 			// ForceClose obtains the transaction through getSignedCommitTx
 			fc := p.Func("lnwallet.LightningChannel.ForceClose")
 			calls := fc.Calls(an.CalleeIs("lnwallet.LightningChannel.getSignedCommitTx"), true)
